@@ -5,7 +5,7 @@
 cd /verif
 pats="$@"
 [ -z "$pats" ] && pats=$(ls benign/*/patch.diff)
-for pf in $pats; do
+for pf in $pats; do pf=$(cd /verif && realpath $pf)
   w=$(mktemp -d /tmp/reftest.XXXXXX)
   mkdir -p $w/repo $w/verif
   (cd /repo && git ls-files -z | xargs -0 cp --parents -t $w/repo)
